@@ -4,6 +4,7 @@
 -/
 import Rva.Gen.Tables
 import Rva.Spec.Asm
+import Rva.Spec.Ecalls
 namespace Rva
 open Spec
 
@@ -64,6 +65,11 @@ theorem class_sets_invariant :
 theorem ecall_table_args_only :
     ∀ row ∈ Gen.ecallTable, (∀ r ∈ row.2.1, r ∈ Spec.arguments) ∧ (∀ r ∈ row.2.2, r ∈ Spec.arguments) := by
   decide
+
+/-- **C02/C01 (tables).** For every RARS environment call of the independent table, the code's
+    signature table lists exactly the registers the environment reads and writes. -/
+theorem ecall_table_matches_rars :
+    ∀ row ∈ Spec.rarsEcalls, Gen.ecallTable.find? (fun r => r.1 == row.1) = some row := by decide
 
 /-! ### C05/C18: diagnostics tables -/
 
